@@ -1,0 +1,115 @@
+package linter
+
+// LexClass is the lexical context of one byte of SQL text, as the text rules need it:
+// they may only re-layout or re-case code, never the content of a literal, a quoted
+// identifier or a comment.
+type LexClass uint8
+
+const (
+	// LexCode marks SQL code: tokens and the white space between them. The line break
+	// that ends a -- comment is code as well.
+	LexCode LexClass = iota
+	// LexLiteral marks a byte of a '...' string literal or of a "..." or `...` quoted
+	// identifier, the quote characters included.
+	LexLiteral
+	// LexBlockComment marks a byte of a /* ... */ comment, the delimiters included.
+	LexBlockComment
+	// LexLineComment marks a byte of a -- comment (up to, not including, the line break).
+	LexLineComment
+)
+
+// lexState is the state of the scanner between two bytes.
+type lexState uint8
+
+const (
+	lexInCode lexState = iota
+	lexInSingle
+	lexInDouble
+	lexInBackquote
+	lexInLineComment
+	lexInBlockOpen // on the '*' of "/*"
+	lexInBlock
+	lexInBlockClose // on the '/' of "*/"
+)
+
+// LexMap classifies every byte of text in a single pass. The scanner state is carried
+// across line breaks, so the second line of a multi-line string literal or block comment
+// is not mistaken for code. Inside a quoted construct a doubled quote character is part
+// of the content (the scanner closes the construct and re-opens it at once); block
+// comments do not nest. A backslash is an ordinary character: the text rules have always
+// read a backslash-escaped quote as the end of the literal, and their tests pin that
+// reading. Bytes that are not valid UTF-8 are classified like any other byte of their
+// context.
+//
+// The result has len(text)+1 entries: entry i is the class of text[i], the last entry is
+// the context at the end of the text (LexCode when no literal or block comment is open).
+func LexMap(text string) []LexClass {
+	m := make([]LexClass, len(text)+1)
+	st := lexInCode
+	for i := 0; i < len(text); i++ {
+		c := text[i]
+		switch st {
+		case lexInCode:
+			switch {
+			case c == '\'':
+				m[i], st = LexLiteral, lexInSingle
+			case c == '"':
+				m[i], st = LexLiteral, lexInDouble
+			case c == '`':
+				m[i], st = LexLiteral, lexInBackquote
+			case c == '-' && i+1 < len(text) && text[i+1] == '-':
+				m[i], st = LexLineComment, lexInLineComment
+			case c == '/' && i+1 < len(text) && text[i+1] == '*':
+				m[i], st = LexBlockComment, lexInBlockOpen
+			default:
+				m[i] = LexCode
+			}
+		case lexInSingle:
+			m[i] = LexLiteral
+			if c == '\'' {
+				st = lexInCode // a doubled quote re-opens the literal at once
+			}
+		case lexInDouble:
+			m[i] = LexLiteral
+			if c == '"' {
+				st = lexInCode
+			}
+		case lexInBackquote:
+			m[i] = LexLiteral
+			if c == '`' {
+				st = lexInCode
+			}
+		case lexInLineComment:
+			if c == '\n' {
+				m[i], st = LexCode, lexInCode
+			} else {
+				m[i] = LexLineComment
+			}
+		case lexInBlockOpen:
+			m[i], st = LexBlockComment, lexInBlock
+		case lexInBlock:
+			m[i] = LexBlockComment
+			if c == '*' && i+1 < len(text) && text[i+1] == '/' {
+				st = lexInBlockClose
+			}
+		case lexInBlockClose:
+			m[i], st = LexBlockComment, lexInCode
+		}
+	}
+	switch st {
+	case lexInCode, lexInLineComment:
+		m[len(text)] = LexCode
+	case lexInBlockOpen, lexInBlock, lexInBlockClose:
+		m[len(text)] = LexBlockComment
+	default:
+		m[len(text)] = LexLiteral
+	}
+	return m
+}
+
+// LineStartsInCode reports whether the line that begins at byte offset off of the text
+// classified by m begins in code, i.e. not inside a literal or block comment that was
+// opened on an earlier line.
+func LineStartsInCode(m []LexClass, off int) bool {
+	return off == 0 || m[off-1] == LexCode
+}
